@@ -88,6 +88,14 @@ func (w *WorkerPool) Start() *WorkerPool {
 
 	w.isRunning = true
 
+	// A worker that left its read loop through the closed dispatcher channel has not consumed the shutdown signal
+	// that Shutdown sent for it. All workers of the previous run are gone (ShutdownComplete) and Shutdown cannot
+	// send while we hold the mutex, so whatever is left in the channel is stale: drop it, otherwise a worker of the
+	// new run would consume it, enter shutdown handling right away and cancel (or merely drain) tasks of a running pool.
+	for len(w.shutdownSignal) > 0 {
+		<-w.shutdownSignal
+	}
+
 	w.startDispatcher()
 	w.startWorkers()
 
